@@ -86,7 +86,9 @@ def first_diff(a, b):
     return "length: real=%d model=%d events" % (len(ea), len(eb))
 
 
-SEM_KINDS = ("lower_flat", "lower_to_memory", "lift_from_memory", "dealloc", "post_return")
+SEM_KINDS = ("lower_flat", "lower_to_memory", "lift_from_memory", "dealloc", "post_return", "call")
+SEM_CALLS = ("call.GuestImport.LowerLift.0.", "call.GuestExport.LiftLower.0.", "call.GuestExport.LiftLower.1.",
+             "call.GuestExportAsync.LiftLower.1.")
 
 
 def sem_items(index, pws=(4, 8), nvals=6, seed=1):
@@ -97,6 +99,8 @@ def sem_items(index, pws=(4, 8), nvals=6, seed=1):
         if kind not in SEM_KINDS or d.startswith("PANIC"):
             continue
         if kind == "post_return" and "(result _)" in sig:
+            continue
+        if kind == "call" and not label.startswith(SEM_CALLS):
             continue
         for pw in pws:
             lines.append("SEM\x1d%s\x1d%d\x1d%d\x1d%d\x1d%s\x1d%s" % (label, pw, nvals, (seed * 7919 + len(lines)) & 0x3fffffff, sig, d))
